@@ -54,14 +54,32 @@ func Send(rw io.ReadWriter, streamData *stream.Info, ws bool, version stream.Ver
 			return err
 		}
 	}
+	// Addresses may contain characters that are not allowed in attribute values
+	// (resourceparts may contain quotes, ampersands and angle brackets).
 	if to != "" {
-		_, err = fmt.Fprintf(b, " to='%s'", to)
+		_, err = b.Write([]byte(" to='"))
+		if err != nil {
+			return err
+		}
+		err = xml.EscapeText(b, []byte(to))
+		if err != nil {
+			return err
+		}
+		_, err = b.Write([]byte("'"))
 		if err != nil {
 			return err
 		}
 	}
 	if from != "" {
-		_, err = fmt.Fprintf(b, " from='%s'", from)
+		_, err = b.Write([]byte(" from='"))
+		if err != nil {
+			return err
+		}
+		err = xml.EscapeText(b, []byte(from))
+		if err != nil {
+			return err
+		}
+		_, err = b.Write([]byte("'"))
 		if err != nil {
 			return err
 		}
